@@ -74,6 +74,19 @@ pub fn gen_case(r: &mut Rng) -> DetCase {
         rows.push(GenRow { action: "Sell", ..buy("TIE", jan10 + 1, "", 10, 10) });
         rows.push(buy("TIE", jan10 + 2, "", 10, 10));
     }
+    // several securities rejected at once (over-sales): the closing list of failing securities
+    // and the order of their messages must not depend on a hash order either
+    if r.chance(50) {
+        for (k, s) in ["ERA", "ERB", "ERC", "ERD"].iter().enumerate() {
+            rows.push(buy(s, last_day + 3 + k as i32, "", 5, 7));
+            rows.push(GenRow { action: "Sell", ..buy(s, last_day + 20 + k as i32, "", 9, 7) });
+        }
+    }
+    // two securities whose names differ only by a space vs a dash (file names of --csv-output-dir)
+    if r.chance(30) {
+        rows.push(buy("BRK B", last_day + 4, "", 3, 11));
+        rows.push(buy("BRK-B", last_day + 5, "", 4, 12));
+    }
     rows.sort_by_key(|x| x.settle_jd);
     let cut = first_day + ((last_day - first_day) as i64 * r.range(30, 110) / 100) as i32;
     DetCase { csv: csv_text(&rows), summary_date: date_str(date_from_jd(cut)) }
@@ -188,7 +201,14 @@ fn splits_observation(csv: &str, out: &mut String) -> Result<(), String> {
 }
 
 pub fn run_case(id: &str, c: &DetCase, runs: usize, out: &mut String) {
-    out.push_str(&format!("case {} determinism runs={}\n", id, runs));
+    // number of distinct securities in the input (for the file count of --csv-output-dir)
+    let nsecs = {
+        let mut v: Vec<&str> = c.csv.lines().skip(1).filter_map(|l| l.split(',').next()).filter(|s| !s.is_empty()).collect();
+        v.sort();
+        v.dedup();
+        v.len()
+    };
+    out.push_str(&format!("case {} determinism runs={} secs={}\n", id, runs, nsecs));
     out.push_str(&format!("in {} {}\n", c.summary_date, oneline(&c.csv)));
     if let Err(e) = splits_observation(&c.csv, out) {
         out.push_str(&format!("impl splits unparsable {}\n", oneline(&e)));
